@@ -53,3 +53,96 @@ Proof.
     + reflexivity.
   - reflexivity.
 Qed.
+
+(* ================================================================ wave 2: the hasher protocol and partitionMessage's slices *)
+From SV Require Import Gen.DecTypes2 C17.ProofsRoute.
+
+Definition erase_call (c : hcall) : hash_action := match c with HReset => HA_reset | HWrite _ => HA_write end.
+
+(* the calls on the hasher, in order, and the result — Reset then Write for every keyed message (also the empty key) *)
+Lemma tie_hash_calls : forall hf ra m n r, 0 < n ->
+  let '(acts, v, e) := DecC17.hash_partition_calls n (key_is_nil m) r ENil (encode_err m) (write_err hf m) ra (hash_of hf m) in
+  acts = map erase_call (hasher_calls m) /\
+  gen_out (v, e) = Model.hash_partition (HashP FbRandom hf ra) m n r.
+Proof.
+  intros hf ra m n r Hn. rewrite (tie_hash_partition hf ra m n r Hn).
+  unfold DecC17.hash_partition_calls, DecC17.hash_partition, hasher_calls, key_is_nil, encode_err, write_err, hash_of.
+  destruct (m_key m) as [|b|e]; cbn [gerr_eqb negb map erase_call app].
+  - split; reflexivity.
+  - destruct (hf b) as [h|e]; cbn [gerr_eqb negb]; split; reflexivity.
+  - split; reflexivity.
+Qed.
+
+(* what the protocol buys: whatever the hasher held before (the previous message's key), after these calls it holds
+   exactly this message's key bytes — so Sum32 is a function of the key alone, also for the empty key *)
+Lemma hasher_state_after_calls : forall st b m, m_key m = KBytes b -> hasher_run st (hasher_calls m) = b.
+Proof. intros st b m E. unfold hasher_calls. rewrite E. reflexivity. Qed.
+
+(* ---- partitionMessage, first slice: which list is offered ---- *)
+Definition is_dynamic (p : partitioner) : bool :=
+  match p with PHash _ => true | PCustom _ (Some _) _ => true | _ => false end.
+Definition msg_requires (p : partitioner) (m : msg) : bool :=
+  match p with PHash _ => key_nonnil m | PCustom _ (Some d) _ => d | _ => false end.
+Definition static_requires (p : partitioner) : bool :=
+  match p with PManual => true | PHash _ => true | PCustom rc _ _ => rc | _ => false end.
+Definition cres_list (c : cres) : list Z := match c with COk l => l | CErr _ => [] end.
+Definition cres_err (c : cres) : gerr := match c with COk _ => ENil | CErr e => EK e end.
+Definition cres_of (l : list Z) (e : gerr) : cres := match e with ENil => COk l | EK x => CErr x | _ => CErr (-999) end.
+
+Lemma cres_roundtrip : forall c, cres_of (cres_list c) (cres_err c) = match c with COk l => COk l | CErr e => CErr e end.
+Proof. destruct c; reflexivity. Qed.
+
+Lemma tie_partition_source : forall p m md l0 e0,
+  let '(parts, err, ex) :=
+    DecC17.partition_source l0 e0 (is_dynamic p) (msg_requires p m) (static_requires p)
+      (cres_list (client_partitions md)) (cres_err (client_partitions md))
+      (cres_list (client_writable md)) (cres_err (client_writable md)) in
+  offered p m md = cres_of parts err /\ ex = ExFall.
+Proof.
+  intros p m md l0 e0. unfold DecC17.partition_source, offered. cbv zeta.
+  assert (H : requires_consistency p m = if is_dynamic p then msg_requires p m else static_requires p).
+  { destruct p as [| | c | h | rc [d|] o]; reflexivity. }
+  rewrite H. destruct (if is_dynamic p then msg_requires p m else static_requires p).
+  - split; [|reflexivity]. destruct (client_partitions md); reflexivity.
+  - split; [|reflexivity]. destruct (client_writable md); reflexivity.
+Qed.
+
+(* ---- partitionMessage, second slice: empty list, partitioner error, range check, partitions[choice] ---- *)
+Definition pick_choice (o : pout) : Z := match o with Chose c => c | _ => -1 end.
+Definition pick_err (o : pout) : gerr := match o with Fail e => EOther e | _ => ENil end.
+Definition rout_of_pick (x : gerr * Z * exit gerr) : rout :=
+  match x with
+  | (_, t, ExFall) => RTo t
+  | (_, _, ExReturn (EK e)) => RErr e
+  | (_, _, ExReturn (EVar _)) => RErr err_invalid_partition
+  | (_, _, ExReturn (EOther e)) => RErr e
+  | _ => RPanic
+  end.
+
+Lemma znth_zidx : forall ps c t, znth ps c = Some t -> 0 <= c -> zidx ps c = t.
+Proof.
+  intros ps c t H Hc. rewrite znth_nth_error in H by exact Hc. unfold zidx.
+  apply nth_error_nth. exact H.
+Qed.
+
+Lemma tie_partition_pick : forall p m md r ps e0,
+  offered p m md = COk ps -> Z.of_nat (length ps) < 2147483648 ->
+  let o := fst (Model.partition p m (Z.of_nat (length ps)) r) in
+  (match o with Chose _ => True | Fail _ => True | _ => ps = [] end) ->
+  fst (route p m md r) = rout_of_pick (DecC17.partition_pick e0 (m_partition m) ps (pick_choice o) (pick_err o)).
+Proof.
+  intros p m md r ps e0 Ho Hlen o Hok. unfold route. rewrite Ho.
+  unfold DecC17.partition_pick. cbv zeta. unfold zlen.
+  rewrite wrap32_small by (split; [apply (Z.le_trans _ 0); [discriminate | apply Zle_0_nat] | exact Hlen]).
+  destruct (Z.of_nat (length ps) =? 0) eqn:En; [reflexivity|].
+  subst o. destruct (Model.partition p m (Z.of_nat (length ps)) r) as [o p'] eqn:Ep. cbn [fst] in *.
+  destruct o as [c|e| |]; cbn [pick_choice pick_err gerr_eqb negb fst].
+  - destruct ((c <? 0) || (c >=? Z.of_nat (length ps))) eqn:Er; [reflexivity|].
+    apply orb_false_iff in Er as [E1 E2]. apply Z.ltb_ge in E1.
+    assert (Hc : c < Z.of_nat (length ps)) by (destruct (Z.geb_spec c (Z.of_nat (length ps))); [discriminate | assumption]).
+    destruct (znth_some ps c (conj E1 Hc)) as [t Ez]. rewrite Ez. cbn [fst rout_of_pick].
+    rewrite (znth_zidx ps c t Ez E1). reflexivity.
+  - reflexivity.
+  - subst ps. discriminate.
+  - subst ps. discriminate.
+Qed.
